@@ -31,6 +31,110 @@ out['SIZES'] = sorted((int(k), int(v)) for k, v in p.SIZES.items())
 for k, v in out.items():
     if k != 'SIZES':
         assert isinstance(v, int) and not isinstance(v, bool) and v >= 0, (k, v)
+
+# ---- literals buried in function bodies, read off the syntax tree (no import: the broker modules need shims).
+# Every pattern degrades gracefully: when the code has been restructured so that the literal is not where it is
+# looked for, the constant is reported as not extracted, the model keeps its default and the correspondence run
+# (which observes the instant of the deadline close, the buffer limit and the read size exactly) pins it instead.
+import ast
+
+def _tree(rel):
+    try:
+        return ast.parse(open(os.path.join(sys.argv[1], rel)).read())
+    except Exception:
+        return None
+
+def _num(node, tree):
+    if isinstance(node, ast.Constant) and isinstance(node.value, (int, float)) and not isinstance(node.value, bool):
+        return node.value
+    if isinstance(node, ast.Name) and tree is not None:      # a module-level NAME = <number>
+        for st in tree.body:
+            if isinstance(st, ast.Assign) and len(st.targets) == 1 and isinstance(st.targets[0], ast.Name) \
+                    and st.targets[0].id == node.id:
+                return _num(st.value, None)
+    return None
+
+def _cls(tree, name):
+    if tree is None:
+        return None
+    for st in tree.body:
+        if isinstance(st, ast.ClassDef) and st.name == name:
+            return st
+    return None
+
+def _method(cls, name):
+    if cls is None:
+        return None
+    for st in cls.body:
+        if isinstance(st, (ast.FunctionDef, ast.AsyncFunctionDef)) and st.name == name:
+            return st
+    return None
+
+def grace_ms():
+    t = _tree('hpfeeds/broker/connection.py')
+    m = _method(_cls(t, 'Connection'), 'pause_writing')
+    if m is None:
+        return None
+    vals = []
+    for n in ast.walk(m):
+        if isinstance(n, ast.Call) and isinstance(n.func, ast.Attribute) and n.func.attr == 'sleep' and n.args:
+            v = _num(n.args[0], t)
+            if v is not None:
+                vals.append(v)
+    if len(vals) == 1 and vals[0] >= 0 and float(vals[0] * 1000).is_integer():
+        return int(vals[0] * 1000)
+    return None
+
+def high_water_factor():
+    t = _tree('hpfeeds/broker/connection.py')
+    c = _cls(t, 'Connection')
+    if c is None:
+        return None
+    for fn in c.body:
+        if not isinstance(fn, (ast.FunctionDef, ast.AsyncFunctionDef)):
+            continue
+        for n in ast.walk(fn):
+            if isinstance(n, ast.Call) and isinstance(n.func, ast.Attribute) and n.func.attr == 'set_write_buffer_limits':
+                hv = [k.value for k in n.keywords if k.arg == 'high']
+                if len(hv) != 1:
+                    return None
+                e = hv[0]
+                if isinstance(e, ast.Name):
+                    defs = [a.value for a in ast.walk(fn) if isinstance(a, ast.Assign) and len(a.targets) == 1
+                            and isinstance(a.targets[0], ast.Name) and a.targets[0].id == e.id]
+                    if len(defs) != 1:
+                        return None
+                    e = defs[0]
+                if isinstance(e, ast.BinOp) and isinstance(e.op, ast.Mult):
+                    for a, b in ((e.left, e.right), (e.right, e.left)):
+                        if isinstance(a, ast.Subscript) and isinstance(a.value, ast.Name) and a.value.id == 'SIZES' \
+                                and 'OP_PUBLISH' in ast.dump(a.slice):
+                            v = _num(b, t)
+                            if isinstance(v, int) and v > 0:
+                                return v
+                return None
+    return None
+
+def reactor_recv():
+    t = _tree('hpfeeds/blocking/reactor.py')
+    if t is None:
+        return None
+    vals = []
+    for n in ast.walk(t):
+        if isinstance(n, ast.Call) and isinstance(n.func, ast.Attribute) and n.func.attr == 'recv' and n.args:
+            v = _num(n.args[0], t)
+            if isinstance(v, int) and v > 0:
+                vals.append(v)
+    return vals[0] if len(set(vals)) == 1 else None
+
+lit = {}
+for name, fn, default in (('GRACE_MS', grace_ms, 60000), ('HIGH_WATER_FACTOR', high_water_factor, 50), ('REACTOR_RECV', reactor_recv, 1024)):
+    try:
+        v = fn()
+    except Exception:
+        v = None
+    lit[name] = {'value': default if v is None else v, 'extracted': v is not None}
+out['LITERALS'] = lit
 print(json.dumps(out))
 '''
 
@@ -60,6 +164,9 @@ def extract(root=None):
     for k in ('OP_ERROR', 'OP_INFO', 'OP_AUTH', 'OP_PUBLISH', 'OP_SUBSCRIBE', 'OP_UNSUBSCRIBE', 'MAXBUF', 'BUFSIZ'):
         lines.append('def %s : Nat := %d' % (k, c[k]))
     lines.append('def SIZES : List (Nat × Nat) := [%s]' % ', '.join('(%d, %d)' % (k, v) for k, v in c['SIZES']))
+    lines.append('-- literals read off the syntax tree of broker/connection.py and blocking/reactor.py (default when the pattern is not found)')
+    for k in ('GRACE_MS', 'HIGH_WATER_FACTOR', 'REACTOR_RECV'):
+        lines.append('def %s : Nat := %d   -- %s' % (k, c['LITERALS'][k]['value'], 'extracted' if c['LITERALS'][k]['extracted'] else 'DEFAULT (not found in the source)'))
     lines.append('end Hpfeeds.Extracted')
     text = '\n'.join(lines) + '\n'
     old = None
